@@ -185,6 +185,50 @@ def run(ctx, pid, bdir=None):
                                 line = int(m.group(1)) if m else None
                             if line is None or line < case.get("line", 1):
                                 why = "refused without naming a line of the input (line %s): %s" % (line, txt.strip()[-200:])
+            elif kind == "export":
+                # C13 on one file: export (from a run with the given output options), adjust the export, export again
+                from checks import c13
+                exe = os.path.join(bdir, "gama-local")
+                src = os.path.join(ctx.scratch, "dir_%s_in.gkf" % case["id"])
+                shutil.copyfile(os.path.join(DIR, case["files"][0]), src)
+                replay["gkf"] = open(src, encoding="latin-1").read()
+                base = os.path.join(ctx.scratch, "dir_%s" % case["id"])
+                outopt = {"text": ["--text", base + ".t"], "xml": ["--xml", base + ".x"], "both": ["--text", base + ".t", "--xml", base + ".x"]}[case.get("outputs", "text")]
+                e1, e2, x0, x1 = base + ".e1.gkf", base + ".e2.gkf", base + ".x0.xml", base + ".x1.xml"
+                for f_ in (e1, e2, x0, x1):
+                    if os.path.exists(f_):
+                        os.remove(f_)
+                steps = [([src] + outopt + ["--export", e1], "export"), ([src, "--xml", x0], "adjustment of the input"),
+                         ([e1, "--xml", x1], "adjustment of the export"), ([e1] + outopt + ["--export", e2], "second export")]
+                for args_, label in steps:
+                    rc, out, err = _run([exe] + args_ + case.get("args", []), ctx.scratch)
+                    u = _unsafe(rc, out, err)
+                    if u:
+                        why = "%s: %s" % (label, u); break
+                    if label == "adjustment of the export":
+                        try:
+                            r1 = gama.parse_adjustment_xml(x1)
+                        except Exception as e:
+                            why = "the exported file is not adjusted: %s" % e; break
+                        if r1.get("error"):
+                            why = "the exported file is refused: %s" % str(r1["error"])[:200]; break
+                if why is None and not case.get("only_params"):
+                    r0, r1 = gama.parse_adjustment_xml(x0), gama.parse_adjustment_xml(x1)
+                    dd = enet.compare_results(r0, r1, ctol=case.get("ctol", 2e-5), rtol=case.get("rtol", 1e-3), check_cov=False)
+                    if dd:
+                        why = "adjusting the export differs from adjusting the input: %s" % dd[0]
+                if why is None:
+                    g1, g2 = c13.parse_gkf(open(e1, encoding="utf-8").read()), c13.parse_gkf(open(e2, encoding="utf-8").read())
+                    dd = [] if case.get("only_params") else c13.gkf_equivalent(g1, g2, 2e-6)
+                    if dd:
+                        why = "the second export differs from the first: %s" % dd[0]
+                if why is None:
+                    g0 = c13.parse_gkf(replay["gkf"])
+                    for k in case.get("keep_params", []):
+                        if g0["params"].get(k) is not None and g1["params"].get(k) is None:
+                            why = "parameter %s of the input is missing in the export" % k
+                        elif g0["params"].get(k) is not None and c13.num(g0["params"][k]) is not None and abs(c13.num(g0["params"][k]) - c13.num(g1["params"][k])) > 1e-6:
+                            why = "parameter %s: input %s, export %s" % (k, g0["params"][k], g1["params"][k])
             elif kind == "deterministic":
                 # the same command line with the heap filled by different bytes (glibc MALLOC_PERTURB_): reading memory that was
                 # never written shows up as different results
